@@ -389,7 +389,7 @@ def probes(ctx):
 
 
 def run(ctx):
-    ctx.search('histories', histories, history_prop, ctx.pick(480, 8000))
+    ctx.search('histories', histories, history_prop, ctx.pick(320, 8000))
     hashseed_sweep(ctx)
     probes(ctx)
 
